@@ -368,7 +368,7 @@ def random_payload(rng, stage=None):
     n0 = rng.choice([1, 1, 2, 2, 3])
     nrows = rng.randint(0, 40)
     calls_pool = ["", "", "", "", "Bob", "Single", "Go Plain Bob", "That's all", "Stand", " Bob ; Single ",
-                  "Stand;That's all", "Bob;", "s", "-", "Go Cambridge"]
+                  "Stand;That's all", "Bob;", "s", "-", "Go Cambridge", "Bob; Stand", " Stand", "Stand ; Single"]
     rows = [[rounds, rng.choice(calls_pool[:8] + ["Go Original", "Single; Go Erin"]), 0] for _ in range(n0)]
     cur = list(rounds)
     for i in range(nrows):
@@ -389,7 +389,7 @@ def random_payload(rng, stage=None):
         r2[0], r2[1] = r2[1], r2[0]
         rows.append(["".join(r2), rng.choice(calls_pool), 0])
     if rng.random() < 0.5:
-        rows.append([rounds, rng.choice(["", "That's all", "That's all;Stand"]), 0])
+        rows.append([rounds, rng.choice(["", "That's all", "That's all;Stand", "That's all; Stand"]), 0])
     return {"stage": stage, "title": "T", "rows": rows}
 
 
